@@ -99,10 +99,15 @@ impl Drop for CaseGuard {
 
 #[inline]
 fn active() -> bool {
-    ARMED.load(Ordering::Relaxed) || TRACK.load(Ordering::Relaxed)
+    cfg!(miri) || ARMED.load(Ordering::Relaxed) || TRACK.load(Ordering::Relaxed)
 }
 
 fn push(c: CaseRef) -> CaseGuard {
+    // under the interpreter every case is announced before it runs, so that a Miri report (which ends the
+    // process) can be tied to the exact input: the runner takes the last CASE line before the error
+    if cfg!(miri) {
+        eprintln!("CASE {}", render(&c).to_string());
+    }
     MY.with(|s| {
         s.stack.lock().unwrap().push(c);
         s.seq.fetch_add(1, Ordering::Relaxed);
